@@ -1,5 +1,6 @@
 import Gv.Model.Seq
 import Gv.Model.Compress
+import Gv.Model.Mask
 /-!
 Implementation-shaped model of `align.seqbag` / `align.align` (property C01).
 
@@ -553,5 +554,33 @@ def matchPanics (L : Nat) : List (String × Seq) → Bool
 def replaceMatchCharsBag (b : Bag) : Option Bag :=
   if matchPanics b.length.toNat (pairs b) then none
   else some { b with rows := withSeqs b.rows (againstFirst (matchSeq b.length.toNat) (pairs b)) }
+
+/-! ### `Mask`, `MaskOccurences` / `MaskUnique` through the C15 model -/
+
+/-- `align.Mask(refseq, start, length, maskreplace, nogap, noref)`: the C15 model on the rows as they are, with the
+reference sequence looked up in the name index (`GetSequenceByName`) and the cached length; the new residues are written
+in place.  `(b, true)` = an error was returned (nothing touched).  `none` = index panic: every row is accessed at every
+site of the window `[start, min(start+length, cached length))`. -/
+def maskBag (refseq : String) (start len : Int) (mr : MaskRep) (nogap noref : Bool) (b : Bag) : Option (Bag × Bool) :=
+  match maskWithRef (pairs b) b.length b.alphabet refseq start len mr nogap noref ((getByName b refseq).map (·.seq)) with
+  | none => some (b, true)
+  | some ps =>
+    let hi := min (start + len) b.length
+    if start < hi && b.rows.any (fun r => (r.seq.length : Int) < hi) then none
+    else some ({ b with rows := withSeqs b.rows ps }, false)
+
+/-- the C15 model of `MaskOccurences` returns the first `L` residues of every row; the Go loop writes in place, so what a
+row holds beyond the cached length `L` stays -/
+def keepTails (L : Nat) (rows : List Row) (ps : List (String × Seq)) : List (String × Seq) :=
+  List.zipWith (fun r p => (p.1, p.2 ++ r.seq.drop L)) rows ps
+
+/-- `align.MaskOccurences(refseq, maxOccurence, maskreplace)` (`MaskUnique` = `maxOccurence` 1) in the same way; every
+row is read at every site below the cached length -/
+def maskOccBag (refseq : String) (maxOcc : Int) (mr : MaskRep) (b : Bag) : Option (Bag × Bool) :=
+  match maskOccWithRef (pairs b) b.length b.alphabet refseq maxOcc mr ((getByName b refseq).map (·.seq)) with
+  | none => some (b, true)
+  | some ps =>
+    if b.rows.any (fun r => r.seq.length < b.length.toNat) then none
+    else some ({ b with rows := withSeqs b.rows (keepTails b.length.toNat b.rows ps) }, false)
 
 end Gv.Model
